@@ -80,22 +80,6 @@ pub proof fn lemma_lex_plain(s: Seq<char>, top: bool)
 }
 // the parser builds wild-card atoms / domains only from wild-card tokens / domains
 pub open spec fn toks_plain(ts: Seq<HctlToken>) -> bool { stoks_plain(view_toks(ts)) }
-pub proof fn lemma_view_toks_index(ts: Seq<HctlToken>, i: int)
-    requires 0 <= i < ts.len()
-    ensures view_toks(ts).len() == ts.len(), view_toks(ts)[i] == view_tok(ts[i])
-    decreases ts.len()
-{
-    let pre = ts.subrange(0, ts.len() - 1);
-    if ts.len() > 1 { lemma_view_toks_len(pre); }
-    if i < ts.len() - 1 { lemma_view_toks_index(pre, i); assert(pre[i] == ts[i]); }
-    else { lemma_view_toks_len(pre); }
-}
-pub proof fn lemma_view_toks_len(ts: Seq<HctlToken>)
-    ensures view_toks(ts).len() == ts.len()
-    decreases ts.len()
-{
-    if ts.len() > 0 { lemma_view_toks_len(ts.subrange(0, ts.len() - 1)); }
-}
 pub proof fn lemma_stoks_plain_index(ts: Seq<STok>, i: int)
     requires stoks_plain(ts), 0 <= i < ts.len()
     ensures stok_plain(ts[i])
